@@ -50,6 +50,11 @@ def unfold(body, max_paths=64):
     def operand(env, op):
         if 'p' in op:
             pl = op['p']
+            # a local that merely aliases a parameter (copy / reborrow of `stats`, or the parameter of a spliced helper)
+            hops = 0
+            while pl[0] in env and env[pl[0]][0] == 'alias' and hops < 8:
+                pl = list(env[pl[0]][1]) + list(pl[1:])
+                hops += 1
             if len(pl) == 1 and pl[0] in env:
                 return env[pl[0]]
             if len(pl) == 2 and pl[0] in env and isinstance(pl[1], str) and pl[1] in ('.::0', '.::1'):
@@ -64,8 +69,26 @@ def unfold(body, max_paths=64):
             return ('const', F.scalar(op['v'], op['ty']))
         return ('unk', 'operand')
 
+    def alias_target(env, pl):
+        # place made only of derefs over a parameter (or over another alias): denotes the same input object
+        if all(p == '*' for p in pl[1:]):
+            base = pl[0]
+            if 1 <= base <= body.argc:
+                return [base]
+            if base in env and env[base][0] == 'alias':
+                return list(env[base][1])
+        return None
+
     def rvalue(env, r):
         k = r['k']
+        if k == 'use' and 'p' in r['o']:
+            at = alias_target(env, r['o']['p'])
+            if at is not None and not re.match(r'^(u|i)(8|16|32|64|128|size)$|^f(32|64)$|^bool$', body.local_ty(at[0]).lstrip('&').strip()):
+                return ('alias', at)
+        if k == 'ref':
+            at = alias_target(env, r['p'])
+            if at is not None:
+                return ('alias', at)
         if k == 'use':
             return operand(env, r['o'])
         if k == 'bin':
@@ -494,6 +517,8 @@ def refine(ranges, conds):
         co = {x: k for x, k in co.items() if k}
         if not co or any(k < 0 for k in co.values()) or any(r.get(x, (-INF, INF))[0] < 0 for x in co):
             continue
+        if op == 'Ne' and k0 == 0:
+            op = 'Gt'           # a non-negative integer combination that is not 0 is at least 1
         if op in ('Gt', 'Ge') and (k0 + (1 if op == 'Gt' else 0)) > 0:
             # a positive combination of non-negative integers known to be >= 1: remembered as a fact about the form itself
             r.setdefault('__pos__', [])
